@@ -182,6 +182,22 @@ theorem C31_separate_dir_counterexample :
     get ((readPathsS canonicalRead table [.file (some exComp), .dir []]).getD []) "EnableCompression" = .bool true := by
   decide
 
+/-- `sources` keeps every occurrence: a file reached twice (a repeated path; a file named
+explicitly that also sits in a given directory) is merged twice, at both positions — that is what
+"reading files in order equals merging them one by one" says (`C31_fold` quantifies over path
+lists with repetitions).  Regression witness (seeded C31-e), on a two-field table: a reader that
+drops a file it has already seen is a different reader — the later occurrence no longer wins
+over the file in between, and its lists are not appended a second time. -/
+theorem C31_repeated_source_counterexample :
+    let t : List FieldSpec := [⟨"NodeName", .str, .overrideIfNonEmpty⟩, ⟨"StartJoin", .list, .concat⟩]
+    let s1 : Config := [("NodeName", .str "x"), ("StartJoin", .list ["s"])]
+    let s2 : Config := [("NodeName", .str "y"), ("StartJoin", .list [])]
+    let ps : List PathArg := [.file (some s1), .file (some s2), .file (some s1)]
+    readPathsS canonicalRead t ps = some [("NodeName", .str "x"), ("StartJoin", .list ["s", "s"])] ∧
+    ((allOk (sources ps).eraseDups).map fun cs => cs.foldl (merge t) (zero t))
+      = some [("NodeName", .str "y"), ("StartJoin", .list ["s"])] := by
+  decide
+
 /-- a concrete reading: a directory listed out of order with a non-`.json` file and a
 sub-directory, and a failing read -/
 example :
